@@ -696,7 +696,7 @@ def conditions(tier, seed):
         if not quick or cn % 2 == seed % 2:
             laws.append(('law_thenby[%s,%s]' % (f1, f2), 'law_thenby', {'first': f1, 'then': f2}, 2))
     for name, func, param, n in laws:
-        n = n if (quick or func in ('law_sets', 'law_dict')) else n + 1
+        n = n if (quick or func in ('law_sets', 'law_dict', 'law_thenby')) else n + 1
         out.append({'name': name, 'func': func, 'timeout': lt, 'param': dict(param, n=n),
                     'bounds': 'model-free law, symbolic int list(s) len <= %d (+ null where meaningful; dictionary keys '
                               'in a small range), tuple and one-shot iterator' % n})
